@@ -45,6 +45,7 @@ def sPython : List Nat := [112, 121, 116, 104, 111, 110]             -- "python"
 def sPath : List Nat := [112, 97, 116, 104]                          -- "path"
 def sPathSer : List Nat := [112, 97, 116, 104, 46, 115, 101, 114, 105, 97, 108, 105, 122, 101, 100]  -- "path.serialized"
 def sEnum : List Nat := [101, 110, 117, 109]                         -- "enum"
+def sDict : List Nat := [100, 105, 99, 116]                          -- "dict"
 
 mutual
 /-- `ConfigInformation._outputjsonvalue`. -/
@@ -57,7 +58,9 @@ def encJ : Val → JVal
   | .enum s => .obj [kType, kValue] [.str sEnum, .str s]
   | .path s => .obj [kType, kValue] [.str sPath, .str s]
   | .list l => .arr (encJs l)
-  | .dict ks vs => .obj ks (encJs vs)
+  | .dict ks vs =>
+    -- `if "type" in items: return {"type": "dict", "value": items}` (fix 738540e of finding F9)
+    if ks.contains kType then .obj [kType, kValue] [.str sDict, .obj ks (encJs vs)] else .obj ks (encJs vs)
   | .ref n => .obj [kType, kValue] [.str sPython, .int n]
 def encJs : List Val → List JVal
   | [] => []
@@ -80,6 +83,7 @@ inductive Err where
   | unknownField                  -- `xpmtype.arguments[name]`: KeyError
   | requiredNone                  -- "Cannot set required attribute to None"
   | empty
+  | noDataLoader                  -- `RuntimeError("No serialization path was given")` (Model/SerialData.lean)
   deriving Repr, DecidableEq
 
 def lookupJ (k : List Nat) : List (List Nat) → List JVal → Option JVal
@@ -99,7 +103,8 @@ def decJ (ids : List Nat) : JVal → Except Err Val
     match lookupJ kType ks vs with
     | none => (decJs ids vs).map (.dict ks)
     | some (.str t) =>
-      if t = sPython then
+      if t = sDict then decWrapped ids ks vs
+      else if t = sPython then
         match lookupJ kValue ks vs with
         | some (.int i) => if ids.contains i.toNat then .ok (.ref i.toNat) else .error (.unknownObject i.toNat)
         | _ => .error .malformed
@@ -117,6 +122,15 @@ def decJ (ids : List Nat) : JVal → Except Err Val
         | _ => .error .malformed
       else .error .unhandledType
     | some _ => .error .unhandledType
+/-- `value["type"] == "dict"`: the items of the member `"value"` (a wrapped dictionary). -/
+def decWrapped (ids : List Nat) : List (List Nat) → List JVal → Except Err Val
+  | k :: ks, v :: vs =>
+    if kValue = k then
+      match v with
+      | .obj ks' vs' => (decJs ids vs').map (.dict ks')
+      | _ => .error .malformed
+    else decWrapped ids ks vs
+  | _, _ => .error .malformed
 def decJs (ids : List Nat) : List JVal → Except Err (List Val)
   | [] => .ok []
   | j :: js =>
